@@ -67,6 +67,10 @@ CHECKS = {
    text="Explicit-state search over reconcile orders and histories on the REAL pod-grouper PodReconciler with the real plugin hub (20 owner chains over 12 kinds incl. skip-top-owner, 1-3 sibling pods): every permutation of first reconciles followed by repeat passes, every replica subset, and BFS (depth 6 quick / 7 thorough) over reconciles interleaved with foreign updates of the PodGroup (queue, markUnschedulable, schedulingBackoff, node-pool label, scheduler annotations/status); each permutation also under a different Go map order. Oracles: documented grouping partition, differential equality of the final PodGroups across all orders/repeats/replica subsets, zero mutating client calls when nothing changed, foreign-owned fields preserved.",
    note="Trusted: controller-runtime fake client (JSON round trip), counting interceptor, informer-cache emulation; reconciles are atomic (no thread interleavings).",
    technique="explicit-state search over reconcile orders / foreign-update histories of the real controller with differential and write-count oracles"),
+ "C07": dict(engine="clustermc", cat="model_checking", ref="§5 C07",
+   text="Explicit-state search on the *reclaim* grammar: 7 queue trees (flat / 2-level / 3-level; quotas 0/1/2, over-quota weights 1/2, queue priorities, a limit) x running workloads placing queues under / at / over quota and fair share x reclaimers (1 GPU, 2-GPU gang, fraction, non-preemptible) on 1-2 nodes, saturation multiplier 1 and 1.5, depth 2. A monitor plugin reads each queue's fair share inside the real session (cpu/memory through Session.QueueFairShare, GPUs through the exact queue_fair_share_gpu gauge); the oracle replays the decision log with allocations recomputed from pod specs and checks, per committed reclaim statement: no queue within its deserved quota (taken at the level where it diverges from the reclaimer) is net-reduced; the reclaiming queue stays within its fair share; a non-preemptible reclaimer stays within deserved quota at every level; the reclaimer's side of the diverging pair does not end above its fair share and at least as saturated as the queue it took from.",
+   note="Trusted: as C01; the fair-share numbers themselves are the scheduler's (C09 judges them). Vacuity guard: >= 100 reclaim statements, >= 10 across departments, fair-share data present in every cycle.",
+   technique="explicit-state model checking of the implementation (BFS over canonical cluster worlds, real scheduler cycle as transition relation, in-session probe for fair shares)"),
 }
 
 NOT_APPLICABLE = []
